@@ -227,6 +227,13 @@ def _parse_iso8601_interval(text: str) -> _Interval:
         start = parse_iso8601(first)
         end = parse_iso8601(last)
 
+    for endpoint in (start, end):
+        if endpoint is not None and not isinstance(endpoint, datetime):
+            raise ParserError("Invalid interval: endpoints must be datetimes")
+
+    if duration is not None and not isinstance(duration, Duration):
+        raise ParserError("Invalid interval: invalid duration")
+
     return _Interval(
         cast(datetime, start), cast(datetime, end), cast(Duration, duration)
     )
